@@ -31,7 +31,7 @@ type VerifEntry struct {
 type VerifChild struct {
 	Index []byte
 	Acc   osmomath.Int
-	Nil   bool   // child pointer or accumulation missing in the stored record
+	Nil   bool // child pointer or accumulation missing in the stored record
 }
 
 // VerifDump decodes every entry of the tree's store in store order.
